@@ -751,7 +751,7 @@ func c20nBodyFields(rng *rand.Rand) []c20Field {
 }
 
 func c20NamesSuite(r *Result, rng *rand.Rand, tier string) {
-	n := 260
+	n := 400
 	if tier == "thorough" {
 		n = 3000
 	} else if tier == "search" {
